@@ -204,6 +204,8 @@ pub struct InvObs<'a> {
     pub r: &'a RunResult,
     pub before_tree: &'a BTreeMap<PathBuf, Entry>,
     pub after_tree: &'a BTreeMap<PathBuf, Entry>,
+    /// the invocation was killed half-way: deletions may be partial, nothing else may differ
+    pub crashed: bool,
 }
 
 #[derive(Clone, Debug, PartialEq)]
@@ -408,7 +410,7 @@ pub fn eval_history(
                 // property-specific oracle on the tree
                 if let Some(f) = extra {
                     let after_tree = snapshot_tree(&case.root);
-                    let o = InvObs { sc, case: &case, inv, r: &r, before_tree: &before_tree, after_tree: &after_tree };
+                    let o = InvObs { sc, case: &case, inv, r: &r, before_tree: &before_tree, after_tree: &after_tree, crashed: false };
                     if let Some(v) = f(&o, &model) {
                         return Some(v);
                     }
@@ -904,7 +906,7 @@ fn normalise(p: &Path) -> PathBuf {
 }
 
 fn clean_oracle(o: &InvObs, _m: &Model) -> Option<Violation> {
-    if o.r.abnormal().is_some() {
+    if o.r.abnormal().is_some() && !o.crashed {
         return None;
     }
     let (del, del_dirs, state) = deletion_set(o);
@@ -937,7 +939,7 @@ fn clean_oracle(o: &InvObs, _m: &Model) -> Option<Violation> {
             // recorded state: must be gone (or rewritten) when in the cleaned scope
             if cleaning {
                 let in_scope = state.iter().any(|s| rel == s || rel.starts_with(s));
-                if in_scope && b.is_some() && a == b && matches!(b, Some(Entry::File(..))) {
+                if !o.crashed && in_scope && b.is_some() && a == b && matches!(b, Some(Entry::File(..))) {
                     return viol("state-survived-clean", format!("path={}", rel.display()), format!("--clean left the recorded state {} in place", rel.display()));
                 }
                 if !in_scope && b.is_some() && a.is_none() {
@@ -952,7 +954,7 @@ fn clean_oracle(o: &InvObs, _m: &Model) -> Option<Violation> {
         let under_removed_dir = del_dirs.iter().any(|d| rel.starts_with(d));
         let expected_absent = del.contains(rel) || under_removed_dir;
         match (b, a, expected_absent) {
-            (Some(_), Some(_), true) => {
+            (Some(_), Some(_), true) if !o.crashed => {
                 return viol("declared-output-not-deleted", format!("path={}", rel.display()), format!("--clean must delete {} (declared output) but it is still there", rel.display()));
             }
             (Some(x), None, false) => {
@@ -1042,7 +1044,99 @@ impl Property for C12 {
         sc.label = format!("clean-{}", sc.label);
         sc
     }
-    fn evaluate(&self, sc: &Scenario, root: &Path, stats: &mut Stats) -> Option<Violation> {
-        eval_history(sc, root, stats, Some(Which::Sound), any_target, Some(clean_oracle), |_sc, c, _| c.inv.args.iter().any(|a| a == "--clean"))
+    fn narrow(&self, sc: &Scenario, v: &Violation) -> Option<Scenario> {
+        let f = v.witness.split(' ').find_map(|t| t.strip_prefix("focus="))?;
+        let mut out = sc.clone();
+        out.focus = Some(f.to_string());
+        Some(out)
     }
+    fn evaluate(&self, sc: &Scenario, root: &Path, stats: &mut Stats) -> Option<Violation> {
+        if sc.focus.is_none() {
+            if let Some(v) = eval_history(sc, root, stats, Some(Which::Sound), any_target, Some(clean_oracle), |_sc, c, _| c.inv.args.iter().any(|a| a == "--clean")) {
+                return Some(v);
+            }
+        }
+        crash_inside_clean(sc, root, stats)
+    }
+}
+
+/// zinoma killed at sampled decision indices inside the last `--clean` invocation of the
+/// history: whatever was deleted so far must lie inside the deletion set; nothing else may have
+/// changed.
+fn crash_inside_clean(sc: &Scenario, root: &Path, stats: &mut Stats) -> Option<Violation> {
+    let ci = sc.steps.iter().rposition(|s| matches!(s, Step::Invoke(i) if i.args.iter().any(|a| a == "--clean")))?;
+    let inv = match &sc.steps[ci] {
+        Step::Invoke(i) => i.clone(),
+        _ => return None,
+    };
+    // only every third case pays for the enumeration (the focus of a narrowed replay always does)
+    if sc.focus.is_none() && simrt::stamp::fnv(simrt::stamp::FNV_INIT, sc.label.as_bytes()).wrapping_add(inv.hash_seed) % 3 != 0 {
+        return None;
+    }
+    let mut case = materialize(sc, root).ok()?;
+    let mut idx = 0;
+    for st in &sc.steps[..ci] {
+        match st {
+            Step::Invoke(p) => {
+                let _ = run_invocation(sc, &mut case, p, &format!("pre{}", idx));
+                idx += 1;
+            }
+            Step::Fs(op) => {
+                let mut clock = case.clock;
+                simrt::vfs::apply_plain(&case.root.clone(), &case.vars_dir(), op, &mut clock);
+                case.clock = clock;
+            }
+            Step::CorruptState { project, target, how } => apply_corruption(sc, &case, *project, target, how),
+        }
+    }
+    let base = root.with_extension("cbase");
+    let _ = std::fs::remove_dir_all(&base);
+    if super::crash::copy_tree(root, &base).is_err() {
+        return None;
+    }
+    let clock0 = case.clock;
+    let before_tree = snapshot_tree(&case.root);
+    let r0 = run_invocation(sc, &mut case, &inv, "c0");
+    let n = r0.footer.as_ref().map(|f| f.decisions).unwrap_or(0);
+    let choices = r0.footer.as_ref().map(|f| f.choices.clone()).unwrap_or_default();
+    let mut ks: Vec<u64> = vec![];
+    let m = 12u64;
+    if n <= m {
+        ks.extend(1..=n);
+    } else {
+        for i in 0..m {
+            ks.push(1 + i * (n - 1) / (m - 1));
+        }
+        ks.dedup();
+    }
+    if let Some(f) = &sc.focus {
+        ks.retain(|k| &format!("cleancrash@{}", k) == f);
+    }
+    let mut verdict = None;
+    for k in ks {
+        let _ = std::fs::remove_dir_all(root);
+        if super::crash::copy_tree(&base, root).is_err() {
+            break;
+        }
+        case.clock = clock0;
+        let mut ci_inv = inv.clone();
+        ci_inv.plan.choices = Some(choices.clone());
+        ci_inv.plan.pad_zero = false;
+        ci_inv.plan.crash_at = Some(k);
+        let r = run_invocation(sc, &mut case, &ci_inv, "ck");
+        stats.absorb_run(&ci_inv, &r, r.code == 137);
+        stats.enumerated += 1;
+        if r.code != 137 {
+            continue;
+        }
+        let after_tree = snapshot_tree(&case.root);
+        let model = Model { records: BTreeMap::new() };
+        let o = InvObs { sc, case: &case, inv: &ci_inv, r: &r, before_tree: &before_tree, after_tree: &after_tree, crashed: true };
+        if let Some(v) = clean_oracle(&o, &model) {
+            verdict = Some(Violation { oracle: format!("crash-in-clean:{}", v.oracle), witness: format!("{} focus=cleancrash@{}", v.witness, k), message: format!("zinoma killed at decision {} of `{}`: {}", k, inv.args.join(" "), v.message) });
+            break;
+        }
+    }
+    let _ = std::fs::remove_dir_all(&base);
+    verdict
 }
